@@ -164,7 +164,7 @@ func c14World(t *testing.T, r *simcore.Run) any {
 	fail := func(site, format string, a ...any) { r.Fail("C14", site, format, a...) }
 
 	// ---- part A: segmentation of an NTS-KE record stream
-	lst, err := w.net.ListenStream(fmt.Sprintf("%s:%d", ipAltIP, 7000), nil)
+	lst, err := w.net.ListenStream(hp(ipAltIP, 7000), nil)
 	_ = err
 	segmentation := func() {
 		real := tp.Bool(1, 3, "realmsg")
@@ -203,7 +203,7 @@ func c14World(t *testing.T, r *simcore.Run) any {
 		}())
 		for ci, cs := range cutSets {
 			useTLS := ci%7 == 6
-			raw, err := w.net.DialStream(w.cli, fmt.Sprintf("%s:%d", ipAltIP, 7000))
+			raw, err := w.net.DialStream(w.cli, hp(ipAltIP, 7000))
 			if err != nil {
 				fail("harness/dial", "%v", err)
 				return
